@@ -562,7 +562,7 @@ def _argsort_valid(report):
 
 MANIFEST = {
     "category": "proof",
-    "text": "Unbounded proof (any length <= 2^20, any values incl. ties/zeros/sign pairs, float and double): every SortingTarget key is checked against the documented rule key, the comparator is a strict weak order on non-NaN values, the index array is 0..len-1 before sorting, argsort's result is injective, in range and ordered by the rule key, the BothEnds map is a bijection with the ceil/floor first-k characterisation for every k, and undefined rules reach invalid_argument. If argsort is restructured beyond the canonical rules, a generalized extraction (fill loop summarised at the Skolem positions after a syntactic independence check) is used under the refute-only-if-replayed policy.",
+    "text": "Unbounded proof (any length <= 2^20, any values incl. ties/zeros/sign pairs, float and double): every SortingTarget key is checked against the documented rule key, the comparator is a strict weak order on non-NaN values, the index array is 0..len-1 before sorting, argsort's result is injective, in range and ordered by the rule key, the BothEnds map is a bijection with the ceil/floor first-k characterisation for every k, and undefined rules reach invalid_argument. If argsort is restructured beyond the canonical rules, a generalized extraction (fill loop summarised at the Skolem positions after a syntactic independence check) is used under the refute-only-if-replayed policy. Third session: wrapper templates whose body is one SortEigenvalue construction are followed by the generalized extraction.",
     "note": "std::sort and std::vector copy are assumed contracts (preconditions proved); Skolem-index instantiation is a meta-rule; "
             "extractor trusted; NaN values excluded",
     "technique": "CBMC code contracts (dfcc enforce/replace, loop contracts, Skolem indices) on mechanically extracted C",
